@@ -334,4 +334,15 @@ example : (newConfig .tg exParse { exEnv with toS := some [0x35], toG := some [0
 /-- the hypotheses of `otlp_precedence` are satisfiable with a specific endpoint that decides the path -/
 example : F20_applies .lh exParse exEnv [] = false ∧ pathSource .lh exParse exEnv [] = .specific [0x2f, 0x63, 0x75, 0x73, 0x74, 0x6f, 0x6d, 0x2f] := by decide
 
+/-- F39 (end-to-end observation, see `Spec.F39_applies`): the exclusion is as narrow as stated — it covers the log gRPC
+exporter only, and only when a certificate variable is set and the resolved transport is TLS. The model stops at the
+resolved configuration (the gRPC dial options are assembled in client.go), so this is a statement about the
+classification predicate, not about the code. -/
+theorem F39_only_loggrpc_tls_with_certificate (exp : Exp) (certVar insecure : Bool)
+    (h : F39_applies exp certVar insecure = true) : exp = .lg ∧ certVar = true ∧ insecure = false := by
+  cases exp <;> cases certVar <;> cases insecure <;> simp_all [F39_applies]
+
+/-- the predicate is satisfiable; an insecure (clear text) configuration is never excused by it -/
+example : F39_applies .lg true false = true ∧ F39_applies .lg true true = false ∧ F39_applies .tg true false = false := by decide
+
 end Otel.C20
